@@ -7,12 +7,13 @@
 //
 // Case string (also the --replay argument):
 //   T:<parent of G1>.<..>  P:<group of W1>.<W2>.<W3>  WE:i.i.i  GE:i.. K:k.k.k
-//   U:u D:d X:x N:n S:s.s.s I:i Q:<len><a|s>...
+//   U:u D:d X:x N:n M:r.g.p S:s.s.s I:i Q:<len><a|s>...
 //   parent -1 = FIELD; WE/GE index into the per-entity efficiency alphabets;
 //   K 0 producer (WCONHIST) 1 water injector 2 gas injector (WCONINJH);
 //   U 0 METRIC 1 FIELD 2 LAB 3 PVT-M; D start date index; X 1 = every efficiency factor moves to the next value of its
 //   alphabet at the second report step; N well naming (0: declared in name order, 1-5: other permutations of A B C,
-//   6: W_2 W_9 W_10); S 0 open 1 shut 2 stop (cross-flow) 3 open with all computed rates exactly 0 4 stop with all rates 0;
+//   6: W_2 W_9 W_10); M tree change: a GRUPTREE after r TSTEPs (r >= 1; 0 = none) hangs group index g under p (-1 FIELD);
+//   S 0 open 1 shut 2 stop (cross-flow) 3 open with all computed rates exactly 0 4 stop with all rates 0;
 //   I 1 = evaluate report step 0 at t=0 first; Q evaluation sequence, element
 //   = length index (0: 1 d, 1: 10 d, 2: 0.5 d) + 'a' (closes its report step)
 //   or 's' (ministep, the report step continues with the next element).
@@ -69,6 +70,8 @@ struct Case {
     int us = 0, start = 0, xe = 0, naming = 0;
     const char* wn(int w) const { return WNAMES[naming][w]; }
     int status[3] = {0, 0, 0};
+    int mr = 0, mg = 0, mp = -1;     // tree change: from schedule step mr >= 1 on (keyword after mr TSTEPs) group mg hangs under mp (-1 FIELD); mr = 0: none
+    int parent(int g, int r) const { return (mr > 0 && r >= mr && g == mg) ? mp : par[g]; }
     int init = 0;
     std::vector<std::pair<int, int>> seq = {{0, 0}};     // (length index, ministep flag)
 
@@ -80,6 +83,7 @@ struct Case {
         s += " GE:"; for (int i = 0; i < ng; ++i) s += (i ? "." : "") + std::to_string(ge[i]);
         s += " K:"; for (int i = 0; i < 3; ++i) s += (i ? "." : "") + std::to_string(kind[i]);
         s += " U:" + std::to_string(us) + " D:" + std::to_string(start) + " X:" + std::to_string(xe) + " N:" + std::to_string(naming);
+        s += " M:" + std::to_string(mr) + "." + std::to_string(mg) + "." + std::to_string(mp);
         s += " S:"; for (int i = 0; i < 3; ++i) s += (i ? "." : "") + std::to_string(status[i]);
         s += " I:" + std::to_string(init) + " Q:";
         for (auto& e : seq) { s += std::to_string(e.first); s += e.second ? 's' : 'a'; }
@@ -111,6 +115,7 @@ struct Case {
             else if (k == "U") c.us = iv.at(0);
             else if (k == "D") c.start = iv.at(0);
             else if (k == "X") c.xe = iv.at(0);
+            else if (k == "M") { c.mr = iv.at(0); c.mg = iv.at(1); c.mp = iv.at(2); }
             else if (k == "N") { c.naming = iv.at(0); if (c.naming < 0 || c.naming > 6) throw std::runtime_error("bad naming"); }
             else if (k == "S") for (int i = 0; i < 3; ++i) c.status[i] = iv.at(i);
             else if (k == "I") c.init = iv.at(0);
@@ -122,10 +127,18 @@ struct Case {
     }
     int wei(int w, int r) const { return (xe && r >= 1) ? (we[w] + 1) % 3 : we[w]; }     // efficiency index of well w in schedule step r
     int gei(int g, int r) const { return (xe && r >= 1) ? (ge[g] + 1) % 3 : ge[g]; }
+    // admissible re-parenting: a real change, no cycle, and the new parent holds no wells (the library rejects mixed children)
+    bool move_ok(int g, int p) const {
+        if (g < 0 || g >= ng || p < -1 || p >= ng || p == g || p == par[g]) return false;
+        for (int a = p; a >= 0; a = par[a]) if (a == g) return false;
+        for (int w = 0; w < 3; ++w) if (wg[w] == p) return false;
+        return true;
+    }
     bool leaf(int g) const { for (int i = 0; i < ng; ++i) if (par[i] == g) return false; return true; }
     bool valid() const {                       // acyclic tree, wells only in leaf groups (the library rejects mixed children)
         for (int i = 0; i < ng; ++i) { int g = i, n = 0; while (g >= 0) { g = par[g]; if (++n > ng) return false; } }
         for (int w = 0; w < 3; ++w) if (wg[w] < 0 || wg[w] >= ng || !leaf(wg[w])) return false;
+        if (mr > 0 && (!move_ok(mg, mp) || (int)report_lengths().size() <= mr)) return false;
         return true;
     }
 };
@@ -182,6 +195,7 @@ static std::string render_schedule(const Case& c) {
             s += "/\nGEFAC\n"; for (int g = 0; g < c.ng; ++g) s += std::string(" '") + GN[g] + "' " + num(GEF[g][c.gei(g, 1)]) + " /\n";
             s += "/\n";
         }
+        if (c.mr > 0 && (int)r == c.mr) s += std::string("GRUPTREE\n '") + GN[c.mg] + "' '" + (c.mp < 0 ? "FIELD" : GN[c.mp]) + "' /\n/\n";
         // LAB decks give time in hours
         s += "TSTEP\n " + num(c.us == 2 ? lens[r] * 24.0 : lens[r]) + " /\n";
     }
@@ -303,26 +317,26 @@ struct Ref {
     double elapsed_s = 0;
     explicit Ref(const Case& cc) : c(cc), u(ref_units(cc.us)), nn(3 + cc.ng + 1), totals(g_kws.size(), std::vector<double>(nn, 0.0)) {}
 
-    bool under(int w, int node) const {      // is well w a descendant of node?
+    bool under(int w, int node, int r) const {      // is well w a descendant of node in the tree in force at schedule step r?
         if (node < 3) return node == w;
         if (node == 3 + c.ng) return true;
-        for (int g = c.wg[w]; g >= 0; g = c.par[g]) if (g == node - 3) return true;
+        for (int g = c.wg[w]; g >= 0; g = c.parent(g, r)) if (g == node - 3) return true;
         return false;
     }
     // efficiency weight of well w in node's RATE: factors of the well and of the groups strictly below node
     double w_rate(int w, int node, int r) const {
         if (node < 3) return 1.0;
         double f = WEF[w][c.wei(w, r)];
-        for (int g = c.wg[w]; g >= 0; g = c.par[g]) { if (node != 3 + c.ng && g == node - 3) break; f *= GEF[g][c.gei(g, r)]; }
+        for (int g = c.wg[w]; g >= 0; g = c.parent(g, r)) { if (node != 3 + c.ng && g == node - 3) break; f *= GEF[g][c.gei(g, r)]; }
         return f;
     }
     // weight in any cumulative TOTAL: the well's factor and every group factor up to FIELD (downtime of an ancestor stops the flow)
-    double w_total(int w, int r) const { double f = WEF[w][c.wei(w, r)]; for (int g = c.wg[w]; g >= 0; g = c.par[g]) f *= GEF[g][c.gei(g, r)]; return f; }
+    double w_total(int w, int r) const { double f = WEF[w][c.wei(w, r)]; for (int g = c.wg[w]; g >= 0; g = c.parent(g, r)) f *= GEF[g][c.gei(g, r)]; return f; }
 
     Flow flow(int node, bool total_mode, int k, int hist_step) const {
         Flow f;
         for (int w = 0; w < 3; ++w) {
-            if (!under(w, node) || c.status[w] == 1) continue;           // shut wells contribute nothing; zero-rate OPEN/STOP wells (3, 4) still echo observed rates
+            if (!under(w, node, hist_step) || c.status[w] == 1) continue;           // shut wells contribute nothing; zero-rate OPEN/STOP wells (3, 4) still echo observed rates
             double wt = total_mode ? w_total(w, hist_step) : w_rate(w, node, hist_step);
             for (int q = 0; q < 6; ++q) {
                 double v = fp_rate(w, q, k, c.kind[w], c.status[w]) * wt;             // SI, m3/s
@@ -439,7 +453,7 @@ static Outcome run_case(const Case& c) {
 // ------------------------------------------------- diagnosis of a mismatch -
 // Reset one dimension after the other to its default; a reset is kept when the
 // keyword still fails.  What cannot be reset names the defect.
-static bool fails(const Case& c, int kw) { Outcome o = run_case(c); if (!o.error.empty()) return false; for (auto& m : o.mm) if (m.kw == kw) return true; return false; }
+static bool fails(const Case& c, int kw) { if (!c.valid()) return false; Outcome o = run_case(c); if (!o.error.empty()) return false; for (auto& m : o.mm) if (m.kw == kw) return true; return false; }
 
 static std::string diagnose(Case& c, int kw, const Mismatch& first) {
     const Kw& k = g_kws[kw];
@@ -447,12 +461,13 @@ static std::string diagnose(Case& c, int kw, const Mismatch& first) {
     // order matters only for the label; every reset that keeps the failure is kept, so the reported case is small
     bool need_units = false, need_efac = false, need_status = false, need_kind = false, need_seq = false;
     { Case d = c; d.us = 0; if (c.us != 0) { if (fails(d, kw)) c = d; else need_units = true; } }
-    bool need_naming = false;
+    bool need_naming = false, need_move = false;
+    { Case d = c; d.mr = 0; d.mg = 0; d.mp = -1; if (c.mr > 0) { if (fails(d, kw)) c = d; else need_move = true; } }
     { Case d = c; d.naming = 0; if (c.naming != 0) { if (fails(d, kw)) c = d; else need_naming = true; } }
     { Case d = c; bool any = false; for (int i = 0; i < 3; ++i) { any |= d.we[i] != 0; d.we[i] = 0; } for (int i = 0; i < 4; ++i) { any |= d.ge[i] != 0; d.ge[i] = 0; } any |= d.xe != 0; d.xe = 0; if (any) { if (fails(d, kw)) c = d; else need_efac = true; } }
     { Case d = c; bool any = false; for (int i = 0; i < 3; ++i) { any |= d.status[i] != 0; d.status[i] = 0; } if (any) { if (fails(d, kw)) c = d; else need_status = true; } }
     { Case d = c; bool any = false; for (int i = 0; i < 3; ++i) { any |= d.kind[i] != 0; d.kind[i] = 0; } if (any) { if (fails(d, kw)) c = d; else need_kind = true; } }
-    { Case d = c; d.seq = {{0, 0}}; d.init = 0; if (c.seq.size() > 1 || c.init || c.seq[0].first != 0) { if (fails(d, kw)) c = d; else need_seq = true; } }
+    { Case d = c; d.seq = {{0, 0}}; d.init = 0; if (d.valid() && (c.seq.size() > 1 || c.init || c.seq[0].first != 0)) { if (fails(d, kw)) c = d; else need_seq = true; } }
     { Case d = c; d.start = 0; if (c.start != 0 && fails(d, kw)) c = d; }
     bool need_tree = false;
     { Case d = c; bool any = false; for (int i = 0; i < d.ng; ++i) { any |= d.par[i] != -1; d.par[i] = -1; } if (any && d.valid()) { if (fails(d, kw)) c = d; else need_tree = true; } }
@@ -468,6 +483,7 @@ static std::string diagnose(Case& c, int kw, const Mismatch& first) {
     while (c.seq.size() > 1) { Case d = c; d.seq.pop_back(); d.seq.back().second = 0; if (fails(d, kw)) c = d; else break; }
     if (need_units) return std::string("units:") + USYS[c.us];
     if (k.cls == K_CAL) return "calendar";
+    if (need_move) return "hierarchy:tree-change";
     if (need_efac) return need_naming ? "efac:declaration-order" : "efac";
     if (need_naming) return "declaration-order";
     if (need_status) {
@@ -624,7 +640,7 @@ int main(int argc, char** argv) {
         "reference model in the harness: hierarchy walk, efficiency weights, sign split, accumulation, ratios, calendar and unit factors (stb = 0.158987294928 m3, Mscf = 28.316846592 m3, day = 86400 s, LAB scc/hr) written independently of Summary.cpp/Units.hpp",
         "efficiency convention as documented in Summary.cpp and pinned by tests/test_Summary.cpp(efficiency_factor): a well's own rate is unweighted, a group's rate carries the factors of wells and groups strictly below it, FIELD rates and every cumulative total carry the well's factor and the factor of every group up to FIELD",
         "dynamically SHUT wells are handed non-zero rates and observed rates so that 'contribute nothing' is not vacuous; STOP wells carry small cross-flow rates of mixed sign and contribute by sign; OPEN/STOP wells whose six computed rates are all exactly 0 contribute 0 to computed vectors but their observed WCONHIST/WCONINJH rates are still echoed in every history rate, ratio and total (history is independent of the computed rates for every well that is not shut)",
-        "wells only in leaf groups (the library rejects groups with both wells and sub-groups); group membership and well kind constant in time, efficiency factors change at most once (report step 2); rates are fingerprints, not physical solutions",
+        "wells only in leaf groups (the library rejects groups with both wells and sub-groups); at most one group is re-parented (one GRUPTREE at a later report step; the reference sums descendants and efficiency chains over the tree in force at each evaluated step), wells never change group or kind, efficiency factors change at most once (report step 2); rates are fingerprints, not physical solutions",
         "vectors outside W/G/F x {O,W,G,L,V} x {P,I} x {R,T,RH,TH}, the five ratios (+H) and the time vectors are not covered; connection/segment/region vectors not covered"};
     if (!setup_catalogue()) return run.finish();
 
@@ -666,10 +682,13 @@ int main(int argc, char** argv) {
             for (int g = 0; g < ng; ++g) c.ge[g] = ch.dev(3);
             c.xe = ch.dev(2);
             { static const int NA[4] = {0, 1, 2, 6}; c.naming = NA[ch.dev(4)]; }     // name order, reverse, B A C, W_2 W_9 W_10
+            int mv = ch.dev(1 + ng * (ng + 1));                                       // re-parenting at schedule step 1: (group, new parent) code; inadmissible ones are skipped below
+            if (mv) { c.mr = 1; c.mg = (mv - 1) / (ng + 1); c.mp = (mv - 1) % (ng + 1) - 1; }
             c.seq = seqA[ch.dev((int)seqA.size())];
             c.init = ch.dev(2);
             for (int w = 0; w < 3; ++w) c.status[w] = ch.dev(nstatus);
             if (ch.used <= skip_upto) return;          // already executed by the regime with the smaller budget
+            if (c.mr && !c.valid()) { return; }        // inadmissible move or no second report step in this sequence
             exec(name, c);
         }, budget, stop);
     };
@@ -687,6 +706,40 @@ int main(int argc, char** argv) {
             if (stop()) break;
             Case c = Case::parse(models[m]); c.us = us; c.start = (int)((q + m) % 3); c.seq = seq3[q]; c.init = init; c.xe = (int)((q + m) % 2);
             exec("B_sequences_x_units", c);
+        }
+    }
+
+    // ---- regime F: group tree changed in time.  A GRUPTREE at schedule step r re-parents one group; evaluations before and after.
+    //      every admissible (group, new parent) move of every forest x placement; reference uses the tree in force at each step
+    {
+        auto run_moves = [&](int ng, const std::vector<std::array<int, 4>>& tr, const std::vector<int>& effs, const std::vector<int>& xes, bool two_seqs, const char* name) {
+            use_summary_for(ng);
+            for (auto& t : tr) {
+                Case c; c.ng = ng; set_tree(c, t);
+                for (auto& pl : placements(c)) {
+                    for (int w = 0; w < 3; ++w) c.wg[w] = pl[w];
+                    for (int g = 0; g < ng; ++g) for (int p = -1; p < ng; ++p) {
+                        if (!c.move_ok(g, p)) continue;
+                        for (int sq = 0; sq < (two_seqs ? 2 : 1); ++sq) for (int r = 1; r <= (sq ? 1 : 2); ++r) for (int e : effs) for (int xe : xes) {
+                            if (stop()) return;
+                            c.mr = r; c.mg = g; c.mp = p; c.xe = xe;
+                            for (int w = 0; w < 3; ++w) c.we[w] = e < 0 ? 2 : (e >> w) & 1;
+                            for (int k = 0; k < ng; ++k) c.ge[k] = e < 0 ? 1 + (k & 1) : (e >> (3 + k)) & 1;
+                            c.kind[0] = 0; c.kind[1] = 0; c.kind[2] = 1;
+                            if (sq == 0) c.seq = {{0, 0}, {1, 0}, {2, 0}};            // three report steps, one evaluation each
+                            else c.seq = {{2, 0}, {0, 1}, {1, 0}};                     // two report steps, the second with a ministep
+                            exec(name, c);
+                        }
+                    }
+                }
+            }
+        };
+        if (run.quick()) run_moves(3, tr3, {0, 127, -1}, {0}, false, "F_tree_change_3groups");
+        else {
+            std::vector<int> all64; for (int e = 0; e < 64; ++e) all64.push_back(e);
+            run_moves(3, tr3, all64, {0}, true, "F_tree_change_3groups");
+            run_moves(3, tr3, {127, -1}, {1}, false, "F_tree_change_3groups_efac_change");
+            run_moves(4, tr4, {127}, {0}, false, "F_tree_change_4groups");
         }
     }
 
@@ -776,10 +829,10 @@ int main(int argc, char** argv) {
     if (run.counters["violations_total"] > 300) { run.exhaustive = false; run.cap_note += "stopped after >300 mismatching vectors; "; }
     run.count("model_builds", (long long)g_builds);
     run.rule = std::string("models: 3 wells (fingerprint rates per well x phase x evaluation, sign by kind) in leaf groups of a group forest under FIELD; dimensions: forest (all 16 labelled forests of 3 groups") +
-        (run.thorough() ? "; all 125 of 4 groups, depth <= 4" : "") + ") x leaf placement of the wells x WEFAC/GEFAC in {1, ~0.5, ~0.25} distinct per entity x kind {producer WCONHIST, water injector, gas injector WCONINJH} x dynamic status {OPEN, SHUT, STOP with cross-flow, OPEN with all six computed rates exactly 0, STOP with all rates 0} x {METRIC, FIELD, LAB, PVT-M} x 3 start dates x evaluation sequences over {1 d, 10 d, 0.5 d} with ministep flags x {with, without} step-0 evaluation x {constant, changed at report step 2} efficiency factors x well naming {declared in name order W1 W2 W3; the 5 other permutations of OP_A OP_B OP_C; W_2 W_9 W_10 (numeric, not lexicographic)}. " +
+        (run.thorough() ? "; all 125 of 4 groups, depth <= 4" : "") + ") x leaf placement of the wells x WEFAC/GEFAC in {1, ~0.5, ~0.25} distinct per entity x kind {producer WCONHIST, water injector, gas injector WCONINJH} x dynamic status {OPEN, SHUT, STOP with cross-flow, OPEN with all six computed rates exactly 0, STOP with all rates 0} x {METRIC, FIELD, LAB, PVT-M} x 3 start dates x evaluation sequences over {1 d, 10 d, 0.5 d} with ministep flags x {with, without} step-0 evaluation x {constant, changed at report step 2} efficiency factors x well naming {declared in name order W1 W2 W3; the 5 other permutations of OP_A OP_B OP_C; W_2 W_9 W_10 (numeric, not lexicographic)} x group tree {constant; one group re-parented by a later GRUPTREE}. " +
         "A: every combination with <= 2 deviations from the default (open producers, constant efficiency 1, METRIC, one 1 d step, no step-0 evaluation) over all 105 forest x placement pairs, all 21 sequences of <= 2 evaluations" +
         (run.thorough() ? ", and every combination with exactly 3 deviations where the sequence is one of {1d; 10d,0.5d; 1d(ministep),10d; 0.5d,1d}; " : "; ") +
-        "(naming alphabet in A: name order, reverse, B A C, W_2 W_9 W_10; status alphabet in A: " + (run.thorough() ? "all five for <= 2 deviations, OPEN/SHUT/STOP for the third" : "OPEN, SHUT, STOP, OPEN-zero") + "); E: 105 pairs x 3 kind assignments x 9 status patterns with zero-rate OPEN/STOP wells (one well at a time, all, mixed with SHUT/STOP), all factors non-unit; B: all 129 sequences of <= 3 evaluations x 4 unit systems x step-0 evaluation on 3 fixed rich models" +
+        "(naming alphabet in A: name order, reverse, B A C, W_2 W_9 W_10; status alphabet in A: " + (run.thorough() ? "all five for <= 2 deviations, OPEN/SHUT/STOP for the third" : "OPEN, SHUT, STOP, OPEN-zero") + "; a re-parenting at schedule step 1 is one more deviation in A, executed where the sequence has >= 2 report steps); F: every admissible (group, new parent) re-parenting of every forest x placement pair" + (run.thorough() ? " at schedule step 1 or 2 (3 report steps) or 1 (2 report steps, ministep) x complete 2^6 efficiency product, plus efficiency change at step 1, plus all 4-group forests x placements x moves at step 1 or 2" : " at schedule step 1 or 2 (3 report steps, evaluated before and after) x 3 efficiency patterns") + "; E: 105 pairs x 3 kind assignments x 9 status patterns with zero-rate OPEN/STOP wells (one well at a time, all, mixed with SHUT/STOP), all factors non-unit; B: all 129 sequences of <= 3 evaluations x 4 unit systems x step-0 evaluation on 3 fixed rich models" +
         (run.thorough() ? "; D: 6 non-default namings x 105 pairs x complete 2^6 efficiency product" : "; D: 6 non-default namings x 105 pairs x all factors non-unit") +
         (run.thorough() ? "; C1: 105 pairs x complete 3^6 efficiency product x 2 kind assignments; C2: 105 pairs x 27 kind x 64 status assignments over {OPEN, SHUT, STOP, OPEN-zero}; C3: 1420 pairs (4 groups) x complete 2^7 efficiency product; C4: 450 pairs (4 groups, increasing forests) x 3-valued efficiency factors on <= 2 entities" : "") +
         ". Oracle: after every Summary::eval each of the checked vectors (see notes.vectors_checked) at every well/group/FIELD node equals the harness reference (rel 1e-10). distinct = distinct vectors of all observed values";
